@@ -4,7 +4,8 @@
     DeliverOwnedFrame/checkSessionID/RouteReply branch by branch); E37 table: Hsms/ResponderSpec.v
     (written from the property statement); proofs: Hsms/ResponderRefine.v, Hsms/ResponderProofs.v;
     tie to the code: Gen/BridgeResponder.v (translator: IsValidSType, constants) + an exact e2e
-    differential on a real connection (harness/cmd/c08, ocaml/c08_driver.ml). *)
+    differential on a real connection (harness/cmd/c08, ocaml/c08_driver.ml); the REGENERATED
+    dispatchFrame is linked to [respond] in Properties/Tie2ResponderModel.v (Hsms/ResponderTie.v). *)
 From Coq Require Import ZArith Bool List Lia.
 From GoSecs Require Import Base.GoInt Gen.Gen Gen.BridgeResponder
   Hsms.Responder Hsms.ResponderSpec Hsms.ResponderRefine Hsms.ResponderProofs.
